@@ -72,11 +72,21 @@ Proof.
 Qed.
 
 (* ------------------------------------------------------------------ shape of a primitive's text (no guards needed) *)
+Lemma inl_bits_length a bits : length (inl_bits a bits) = length bits.
+Proof.
+  destruct bits as [|b0 [|b1 t]]; [reflexivity | reflexivity |].
+  unfold inl_bits. rewrite map_length, combine_length, seq_length. apply Nat.min_id.
+Qed.
+
 Lemma prim_assigns_shape p : exists l e, prim_assigns p = [(l, e)] /\ lnet l = fst (prim_out p).
 Proof.
   destruct p; cbn [prim_assigns prim_out]; try (do 2 eexists; split; reflexivity);
     try (destruct ins as [|x t]; do 2 eexists; split; reflexivity).
-  unfold inl_constant. destruct (1 <? snd r); do 2 eexists; split; reflexivity.
+  - unfold inl_constant. destruct (1 <? snd r); do 2 eexists; split; reflexivity.
+  - destruct (nth k (inl_bits a bits) (whole (nth k bits (O, 0)), RNum 0)) as [l e] eqn:E. exists l, e. split; [reflexivity|].
+    destruct (Nat.lt_ge_cases k (length bits)) as [Hlt|Hge].
+    + rewrite inl_bits_nth in E by exact Hlt. injection E as <- _. reflexivity.
+    + rewrite nth_overflow in E by (rewrite inl_bits_length; exact Hge). injection E as <- _. reflexivity.
 Qed.
 
 Lemma leaf_outs ps : flat_map c_out (map prim_leaf ps) = map (fun p => fst (prim_out p)) ps.
